@@ -194,12 +194,13 @@ def r19_2(ctx, rr):
         okw = wt is not None and wt[0] == "ite" and is_cmp(wt[1], "<=") and wt[2][0] == "var" and wt[2][1] == lname and wt[3][0] == "var" and wt[3][1] == rname
     rr.check(okw, "add_ptr:smaller-head-written", "add_ptr: each merge step writes the smaller of the two heads (`if *left <= *right { *left } else { *right }`), comparing the pointed-to variables", b.span)
     # both tails copied
-    copies = [n for n in walk(b.body) if n.get("k") == "Call" and cname(F, n).endswith("copy_nonoverlapping") and not any(x is n for x in walk(loop[0]))]
+    # `ptr::copy_nonoverlapping(src, dst, n)` or the method form `src.copy_to_nonoverlapping(dst, n)`
+    copies = [n for n in walk(b.body) if n.get("k") in ("Call", "MethodCall") and (cname(F, n) or "").endswith(("copy_nonoverlapping", "copy_to_nonoverlapping", "copy_to")) and not any(x is n for x in walk(loop[0]))]
     rr.instances += 1
     T = Termizer(F, b)
     srcs = set()
     for c in copies:
-        t = T.term(c["args"][0])
+        t = T.term(call_args(c)[0])
         if t[0] == "var":
             srcs.add(t[1])
     rr.check({lname, rname} <= srcs, "add_ptr:both-tails-copied", "add_ptr: after the merge loop the remainders of both inputs must be copied (found copies from %s)" % sorted(srcs), b.span)
@@ -223,8 +224,10 @@ def r19_2(ctx, rr):
     rr.instances += 1
     cap = [n for n in walk(a.body) if n.get("k") == "Call" and cname(F, n).endswith("with_capacity")]
     okcap = False
+    from r_guards import simple_env
+    Tc = simple_env(F, a)       # the two lengths may be named first
     for c in cap:
-        t = Ta.term(c["args"][0])
+        t = Tc.term(c["args"][0])
         want = mk_op("+", ("call", "len", (("field", slf, "vars"),)), ("call", "len", (("field", oth, "vars"),)))
         okcap = okcap or t == want or repr(sorted(map(repr, subterms(t)))) == repr(sorted(map(repr, subterms(want))))
     rr.check(okcap, "add:capacity-is-sum", "Modulo2Equation::add writes through a raw pointer into a vector that must have capacity self.vars.len() + other.vars.len()", a.span)
@@ -290,6 +293,13 @@ def r19_4(ctx, rr):
     if oki:
         order = [id(x) for x in walk(z["th"])]
         oki = order.index(id(pushes[0])) > order.index(id(i_[0])) and order.index(id(pushes[0])) > order.index(id(u[0])) if u else False
+    if not oki and u and pushes:
+        # the other way round: `if !row.is_identity() { dense.push(row) }` (the push itself is guarded)
+        for x in walk(z["th"]):
+            if x.get("k") == "If" and "is_identity" in show(F, x["c"]) and sum(1 for y in walk(x["c"]) if y.get("k") == "Unary" and y.get("op") == "!") % 2 == 1 and "el" not in x:
+                if any(y is pushes[0] for y in walk(x["th"])):
+                    order = [id(y) for y in walk(z["th"])]
+                    oki = order.index(id(pushes[0])) > order.index(id(u[0]))
     rr.check(oki, "lazy:identity-skipped-else-dense", "lazy_gaussian_elimination: an identity row is skipped and only the other fully-eliminated rows are handed to the dense solver (after the unsolvable and identity tests)", F.loc(z))
     # dense solve error propagated
     rr.instances += 1
